@@ -1045,6 +1045,14 @@ def interrupt_case(job):
         rc, err = run_child(d, sc, backend, rid, args=args2)
         v0 = book.enrich(sc, run_view(read_log(d), rid))
         res['complaints'] += value_complaints(sc, v0, book, 'complete run %d' % rid)
+        if rc != 0 and 'thread' in args2 and 'io.UnsupportedOperation' in err:
+            # the complete run that prepares the history died of the known C17 finding (thread-overlap-python-actions: the
+            # process-global sys.stdout is swapped per action, so a cmd-action with io.capture False can pick up, as its
+            # stdout, the Writer another thread's python-action has installed at that moment -- Writer.fileno() raises
+            # io.UnsupportedOperation and the run ends with exit 3).  A race in doit's thread runner, not a C06 matter:
+            # the case cannot be set up, it is counted and skipped
+            res['skipped_known_c17'] = True
+            return res
         if rc != 0 or not book.apply(sc, v0):
             res['problems'].append(('harness', 'prior run failed rc=%s %s' % (rc, err[-300:])))
             if sc.get('reldb') and v0['chdirs']:
@@ -1242,6 +1250,8 @@ def part_interrupt(ctx, out, cases):
         shape = 'interrupt:%s:%s:%s' % (job['backend'], job['variant'], job['runner'])
         out.count('interrupt:%s:%s:%s' % (job['backend'], job['variant'], job['runner']))
         out.count('interrupt-kind:' + job['kind'])
+        if res.get('skipped_known_c17'):
+            out.count('history-run-died-of-known-C17-thread-stream-race')
         for kind_, what in res['problems']:
             out.mismatches.append(dict(case=desc, impl=what, model='harness could not set up the case'))
         if 'v1' not in res:
@@ -1577,6 +1587,8 @@ def part_abort(ctx, out, cases):
         sc = job['sc']
         desc = dict(res['job'])
         shape = 'abort:%s:%s:%s:%s' % (job['kind'], job['backend'], job['variant'], job['runner'])
+        if res.get('skipped_known_c17'):
+            out.count('history-run-died-of-known-C17-thread-stream-race')
         for kind_, what in res['problems']:
             out.mismatches.append(dict(case=desc, impl=what, model='harness could not set up the case'))
         if 'v1' not in res:
@@ -2385,6 +2397,8 @@ def part_action_class(ctx, out, cases):
     for job, res in zip(jobs, results):
         sc = job['sc']
         desc = dict(res['job'])
+        if res.get('skipped_known_c17'):
+            out.count('history-run-died-of-known-C17-thread-stream-race')
         for kind_, what in res['problems']:
             out.mismatches.append(dict(case=desc, impl=what, model='harness could not set up the case'))
         if 'v1' not in res:
